@@ -19,7 +19,7 @@ rust2coq.py.  AST nodes are tuples whose 2nd component is always the source line
     ('return', ln, e|None)       ('for', ln, pattern, iter-expr, block)          ('tuple', ln, [es])
     ('match', ln, scrutinee, [(pattern, arm-expr)])    ('range', ln, lo, hi)     ('break', ln)   ('continue', ln)
   patterns (only what `if let` / `for` / `let` need)
-    ('pbind', ln, name, is_mut)  ('ptuplestruct', ln, path-node, [patterns])     ('pwild', ln)
+    ('pbind', ln, name, is_mut)  ('ptuplestruct', ln, path-node, [patterns])     ('pwild', ln)    ('ptuple', ln, [patterns])
   statements
     ('let', ln, pattern, type-string|None, init-expr)     ('expr', ln, e, has_semicolon)
 """
@@ -138,6 +138,14 @@ def join_tokens(ts):
 
 
 CLOSE = {"(": ")", "[": "]", "{": "}"}
+
+
+def closure_param(p):
+    """closure parameter as a name, "_", or a tuple of those (for `|(layout, _)| ..`)"""
+    if p[0] == "pbind": return p[2]
+    if p[0] == "pwild": return "_"
+    if p[0] == "ptuple": return tuple(closure_param(q) for q in p[2])
+    raise Lost(p[1], "closure parameter pattern outside the subset")
 
 
 class Parser:
@@ -265,6 +273,13 @@ class Parser:
         x = self.peek()
         if x.kind == "id" and x.text == "_":
             self.next(); return ("pwild", x.line)
+        if self.at("("):
+            self.next(); subs = []
+            while not self.at(")"):
+                subs.append(self.pattern())
+                if not self.accept(","): break
+            self.expect(")")
+            return ("ptuple", x.line, subs)
         if self.at("mut") and self.peek(1).kind == "id":
             self.next(); return ("pbind", x.line, self.ident(), True)
         if x.kind == "id" or (x.kind == "kw" and x.text in ("Self", "crate")):
@@ -316,9 +331,9 @@ class Parser:
             self.expect("|")
             while not self.at("|"):
                 p = self.pattern()
-                if p[0] not in ("pbind", "pwild"): self.lost("closure parameter pattern outside the subset", x)
+                if p[0] not in ("pbind", "pwild", "ptuple"): self.lost("closure parameter pattern outside the subset", x)
                 if self.accept(":"): self.parse_type()
-                params.append(p[2] if p[0] == "pbind" else "_")
+                params.append(closure_param(p))
                 if not self.accept(","): break
             self.expect("|")
         if self.at("->"): self.lost("closure return type annotation is outside the subset")
